@@ -6,15 +6,15 @@
 (* printed for each trace is a function of that trace alone.               *)
 (***************************************************************************)
 EXTENDS ExecProps, ExecData
-VARIABLES tr, l
+VARIABLES tr, l, evs
 
-tvars == <<prog, tr, l, mvars>>
+tvars == <<prog, tr, l, evs, mvars>>
 
-Evs == Traces[tr].evs
+Evs == evs
 
 Probe(ev) == [p |-> ev.p, t |-> ev.t, i |-> ev.i, item |-> ev.item, v |-> ev.v, xc |-> ev.xc]
 
-TInit == /\ tr = 1 /\ l = 1 /\ prog = Traces[1].prog /\ MonInit
+TInit == /\ tr = 1 /\ l = 1 /\ prog = Programs[Traces[1].prog] /\ evs = Traces[1].evs /\ MonInit
 
 Consume ==
   /\ l <= Len(Evs)
@@ -26,15 +26,15 @@ Consume ==
          [] ev.e = "DL" -> OnDL
          [] OTHER       -> MonUnchanged
   /\ l' = l + 1
-  /\ UNCHANGED <<tr, prog>>
+  /\ UNCHANGED <<tr, prog, evs>>
 
 NextTrace ==
   /\ l = Len(Evs) + 1
   /\ PrintT(<<"VERDICT", Traces[tr].id, ToString(bad)>>)
   /\ IF tr < Len(Traces)
-     THEN /\ tr' = tr + 1 /\ l' = 1 /\ prog' = Traces[tr + 1].prog
+     THEN /\ tr' = tr + 1 /\ l' = 1 /\ prog' = Programs[Traces[tr + 1].prog] /\ evs' = Traces[tr + 1].evs
           /\ begun' = {} /\ ended' = {} /\ dead' = <<>> /\ ret' = NoRet /\ bad' = {}
-     ELSE /\ l' = l + 1 /\ UNCHANGED <<tr, prog, mvars>>
+     ELSE /\ l' = l + 1 /\ UNCHANGED <<tr, prog, evs, mvars>>
 
 TNext == Consume \/ NextTrace
 TSpec == TInit /\ [][TNext]_tvars
